@@ -4,6 +4,7 @@ use vstd::std_specs::ops::*;
 use vstd::std_specs::cmp::*;
 use vstd::std_specs::convert::*;
 verus! {
+global size_of usize == 8;
 // ======== include shim/prelude.rs ========
 // ---------------------------------------------------------------------------
 // shim/prelude.rs  -- TRUSTED.  Error type, divergence helpers, min/max.
@@ -111,20 +112,21 @@ pub open spec fn trem(a: int, b: int) -> int
     a - b * tdiv(a, b)
 }
 
-// Bitwise operations: defined through u128 for w <= 128 (so that `by(bit_vector)` applies);
-// for wider values they are left uninterpreted -- the properties quantify over <= 16-byte values.
-pub uninterp spec fn wide_and(w: nat, a: nat, b: nat) -> nat;
-pub uninterp spec fn wide_or(w: nat, a: nat, b: nat) -> nat;
-pub uninterp spec fn wide_xor(w: nat, a: nat, b: nat) -> nat;
-
-pub open spec fn bits_and(w: nat, a: nat, b: nat) -> nat {
-    if w <= 128 { ((a as u128) & (b as u128)) as nat } else { wide_and(w, a, b) }
+// Bitwise operations, defined bit by bit over the naturals (all widths, no axioms).
+pub open spec fn bits_and(a: nat, b: nat) -> nat
+    decreases a
+{
+    if a == 0 { 0 } else { (if a % 2 == 1 && b % 2 == 1 { 1nat } else { 0nat }) + 2 * bits_and(a / 2, b / 2) }
 }
-pub open spec fn bits_or(w: nat, a: nat, b: nat) -> nat {
-    if w <= 128 { ((a as u128) | (b as u128)) as nat } else { wide_or(w, a, b) }
+pub open spec fn bits_or(a: nat, b: nat) -> nat
+    decreases a + b
+{
+    if a == 0 && b == 0 { 0 } else { (if a % 2 == 1 || b % 2 == 1 { 1nat } else { 0nat }) + 2 * bits_or(a / 2, b / 2) }
 }
-pub open spec fn bits_xor(w: nat, a: nat, b: nat) -> nat {
-    if w <= 128 { ((a as u128) ^ (b as u128)) as nat } else { wide_xor(w, a, b) }
+pub open spec fn bits_xor(a: nat, b: nat) -> nat
+    decreases a + b
+{
+    if a == 0 && b == 0 { 0 } else { (if (a % 2 == 1) != (b % 2 == 1) { 1nat } else { 0nat }) + 2 * bits_xor(a / 2, b / 2) }
 }
 /// bitwise complement within w bits (pure arithmetic: 2^w - 1 - u).
 pub open spec fn bits_not(w: nat, a: nat) -> nat { (p2(w) - 1 - a) as nat }
@@ -227,15 +229,15 @@ impl Bitvector {
     #[verifier::external_body]
     pub fn from_u128(v: u128) -> (r: Bitvector) ensures r == bv(128, v as nat), r.wf() { unimplemented!() }
     #[verifier::external_body]
-    pub fn from_i8(v: i8) -> (r: Bitvector) ensures r == bv(8, trunc(8, v as int)), r.wf(), r.s() == v { unimplemented!() }
+    pub fn from_i8(v: i8) -> (r: Bitvector) ensures r == bv(8, trunc(8, v as int)), r.wf() { unimplemented!() }
     #[verifier::external_body]
-    pub fn from_i16(v: i16) -> (r: Bitvector) ensures r == bv(16, trunc(16, v as int)), r.wf(), r.s() == v { unimplemented!() }
+    pub fn from_i16(v: i16) -> (r: Bitvector) ensures r == bv(16, trunc(16, v as int)), r.wf() { unimplemented!() }
     #[verifier::external_body]
-    pub fn from_i32(v: i32) -> (r: Bitvector) ensures r == bv(32, trunc(32, v as int)), r.wf(), r.s() == v { unimplemented!() }
+    pub fn from_i32(v: i32) -> (r: Bitvector) ensures r == bv(32, trunc(32, v as int)), r.wf() { unimplemented!() }
     #[verifier::external_body]
-    pub fn from_i64(v: i64) -> (r: Bitvector) ensures r == bv(64, trunc(64, v as int)), r.wf(), r.s() == v { unimplemented!() }
+    pub fn from_i64(v: i64) -> (r: Bitvector) ensures r == bv(64, trunc(64, v as int)), r.wf() { unimplemented!() }
     #[verifier::external_body]
-    pub fn from_i128(v: i128) -> (r: Bitvector) ensures r == bv(128, trunc(128, v as int)), r.wf(), r.s() == v { unimplemented!() }
+    pub fn from_i128(v: i128) -> (r: Bitvector) ensures r == bv(128, trunc(128, v as int)), r.wf() { unimplemented!() }
 
     #[verifier::external_body]
     pub fn zero(width: BitWidth) -> (r: Bitvector)
@@ -255,12 +257,12 @@ impl Bitvector {
     #[verifier::external_body]
     pub fn signed_min_value(width: BitWidth) -> (r: Bitvector)
         requires 1 <= width.n <= MAXW()
-        ensures r == bv(width.n as nat, p2((width.n - 1) as nat)), r.wf(), r.s() == smin(width.n as nat)
+        ensures r == bv(width.n as nat, p2((width.n - 1) as nat)), r.wf()
     { unimplemented!() }
     #[verifier::external_body]
     pub fn signed_max_value(width: BitWidth) -> (r: Bitvector)
         requires 1 <= width.n <= MAXW()
-        ensures r == bv(width.n as nat, (p2((width.n - 1) as nat) - 1) as nat), r.wf(), r.s() == smax(width.n as nat)
+        ensures r == bv(width.n as nat, (p2((width.n - 1) as nat) - 1) as nat), r.wf()
     { unimplemented!() }
 
     #[verifier::external_body]
@@ -282,7 +284,6 @@ impl Bitvector {
         requires self.wf(), tw_ok(target_width)
         ensures r is Ok <==> tw_of(target_width) >= self.w@,
                 r is Ok ==> r->Ok_0 == bv(tw_of(target_width), trunc(tw_of(target_width), self.s())) && r->Ok_0.wf()
-                            && r->Ok_0.s() == self.s()
     { unimplemented!() }
     #[verifier::external_body]
     pub fn into_truncate<W: Into<BitWidth>>(self, target_width: W) -> (r: Result<Bitvector, Error>)
@@ -447,9 +448,9 @@ impl Bitvector {
     #[verifier::external_body]
     pub fn sign_bit(&self) -> (r: Bit) requires self.wf() ensures (r is Set) == self.sign() { unimplemented!() }
     #[verifier::external_body]
-    pub fn count_ones(&self) -> (r: usize) requires self.wf() ensures r as nat == popcount(self.u@), r as nat <= self.w@ { unimplemented!() }
+    pub fn count_ones(&self) -> (r: usize) requires self.wf() ensures r as nat == popcount(self.u@) { unimplemented!() }
     #[verifier::external_body]
-    pub fn leading_zeros(&self) -> (r: usize) requires self.wf() ensures r as nat == self.w@ - bitlen(self.u@), bitlen(self.u@) <= self.w@ { unimplemented!() }
+    pub fn leading_zeros(&self) -> (r: usize) requires self.wf() ensures r as int == self.w@ - bitlen(self.u@) { unimplemented!() }
     #[verifier::external_body]
     pub fn trailing_zeros(&self) -> (r: usize) requires self.wf() ensures r as nat == (if self.u@ == 0 { self.w@ } else { tz(self.u@) }) { unimplemented!() }
 
@@ -495,9 +496,9 @@ pub open spec fn bv_add(a: Bitvector, b: Bitvector) -> Bitvector { bv(a.w@, trun
 pub open spec fn bv_sub(a: Bitvector, b: Bitvector) -> Bitvector { bv(a.w@, trunc(a.w@, a.u@ - b.u@)) }
 pub open spec fn bv_mul(a: Bitvector, b: Bitvector) -> Bitvector { bv(a.w@, trunc(a.w@, (a.u@ * b.u@) as int)) }
 pub open spec fn bv_neg(a: Bitvector) -> Bitvector { bv(a.w@, trunc(a.w@, -(a.u@ as int))) }
-pub open spec fn bv_and(a: Bitvector, b: Bitvector) -> Bitvector { bv(a.w@, bits_and(a.w@, a.u@, b.u@)) }
-pub open spec fn bv_or(a: Bitvector, b: Bitvector) -> Bitvector { bv(a.w@, bits_or(a.w@, a.u@, b.u@)) }
-pub open spec fn bv_xor(a: Bitvector, b: Bitvector) -> Bitvector { bv(a.w@, bits_xor(a.w@, a.u@, b.u@)) }
+pub open spec fn bv_and(a: Bitvector, b: Bitvector) -> Bitvector { bv(a.w@, bits_and(a.u@, b.u@)) }
+pub open spec fn bv_or(a: Bitvector, b: Bitvector) -> Bitvector { bv(a.w@, bits_or(a.u@, b.u@)) }
+pub open spec fn bv_xor(a: Bitvector, b: Bitvector) -> Bitvector { bv(a.w@, bits_xor(a.u@, b.u@)) }
 
 // PartialEq: apint compares width and digits; never panics.
 impl PartialEq for Bitvector {
@@ -914,6 +915,191 @@ impl SubSpecImpl<ByteSize> for ByteSize {
 
 /// Bound on byte sizes under which `size * 8` and width sums stay far away from overflow.
 pub open spec fn MAXBYTES() -> nat { 0x200_0000 }
+// ======== include lemmas/bv.rs ========
+// ---------------------------------------------------------------------------
+// lemmas/bv.rs -- proved facts about p2 / trunc / sval (no assumptions).
+// ---------------------------------------------------------------------------
+
+pub proof fn lemma_p2(w: nat)
+    ensures p2(w) > 0, w >= 1 ==> p2(w) == 2 * p2((w - 1) as nat),
+{
+    vstd::arithmetic::power2::lemma_pow2_pos(w);
+    if w >= 1 { vstd::arithmetic::power2::lemma_pow2_unfold(w); }
+}
+
+pub proof fn lemma_p2_mono(a: nat, b: nat)
+    requires a <= b
+    ensures p2(a) <= p2(b), p2(b) == p2(a) * p2((b - a) as nat),
+{
+    if a < b { vstd::arithmetic::power2::lemma_pow2_strictly_increases(a, b); }
+    vstd::arithmetic::power2::lemma_pow2_adds(a, (b - a) as nat);
+}
+
+pub proof fn lemma_p2_consts()
+    ensures p2(0) == 1, p2(1) == 2, p2(3) == 8, p2(7) == 128, p2(8) == 256, p2(16) == 65536, p2(32) == 0x1_0000_0000,
+            p2(63) == 0x8000_0000_0000_0000, p2(64) == 0x1_0000_0000_0000_0000,
+            p2(127) == 0x8000_0000_0000_0000_0000_0000_0000_0000, p2(128) == 0x1_0000_0000_0000_0000_0000_0000_0000_0000,
+{
+    vstd::arithmetic::power2::lemma2_to64();
+    vstd::arithmetic::power2::lemma2_to64_rest();
+    vstd::arithmetic::power2::lemma_pow2_adds(64, 63);
+    vstd::arithmetic::power2::lemma_pow2_adds(64, 64);
+    assert(p2(127) == 0x8000_0000_0000_0000_0000_0000_0000_0000) by {
+        assert(0x1_0000_0000_0000_0000 * 0x8000_0000_0000_0000 == 0x8000_0000_0000_0000_0000_0000_0000_0000) by (compute);
+    }
+    assert(p2(128) == 0x1_0000_0000_0000_0000_0000_0000_0000_0000) by {
+        assert(0x1_0000_0000_0000_0000 * 0x1_0000_0000_0000_0000 == 0x1_0000_0000_0000_0000_0000_0000_0000_0000) by (compute);
+    }
+}
+
+/// the basic tool: x = q*2^w + y with 0 <= y < 2^w  ==>  trunc(w, x) = y
+pub proof fn lemma_trunc_unique(w: nat, x: int, q: int, y: int)
+    requires 0 <= y < p2(w), x == q * p2(w) + y,
+    ensures trunc(w, x) == y,
+{
+    lemma_p2(w);
+    vstd::arithmetic::div_mod::lemma_fundamental_div_mod_converse(x, p2(w) as int, q, y);
+}
+
+pub proof fn lemma_trunc_range(w: nat, x: int)
+    ensures 0 <= trunc(w, x) < p2(w), x == (x / (p2(w) as int)) * p2(w) + trunc(w, x),
+{
+    lemma_p2(w);
+    vstd::arithmetic::div_mod::lemma_mod_bound(x, p2(w) as int);
+    vstd::arithmetic::div_mod::lemma_fundamental_div_mod(x, p2(w) as int);
+    assert((p2(w) as int) * (x / (p2(w) as int)) == (x / (p2(w) as int)) * p2(w)) by (nonlinear_arith);
+}
+
+pub proof fn lemma_trunc_id(w: nat, x: int)
+    requires 0 <= x < p2(w)
+    ensures trunc(w, x) == x,
+{
+    lemma_trunc_unique(w, x, 0, x);
+}
+
+/// adding a multiple of 2^w does not change trunc
+pub proof fn lemma_trunc_shift(w: nat, x: int, k: int)
+    ensures trunc(w, x + k * p2(w)) == trunc(w, x),
+{
+    lemma_trunc_range(w, x);
+    let q = x / (p2(w) as int);
+    assert(x + k * p2(w) == (q + k) * p2(w) + trunc(w, x)) by (nonlinear_arith)
+        requires x == q * p2(w) + trunc(w, x);
+    lemma_trunc_unique(w, x + k * p2(w), q + k, trunc(w, x) as int);
+}
+
+pub proof fn lemma_trunc_add_case(w: nat, a: nat, b: nat)
+    requires a < p2(w), b < p2(w)
+    ensures trunc(w, (a + b) as int) == (if a + b < p2(w) { (a + b) as int } else { a + b - p2(w) }),
+{
+    if a + b < p2(w) { lemma_trunc_id(w, (a + b) as int); }
+    else { lemma_trunc_unique(w, (a + b) as int, 1, a + b - p2(w)); }
+}
+
+pub proof fn lemma_trunc_sub_case(w: nat, a: nat, b: nat)
+    requires a < p2(w), b < p2(w)
+    ensures trunc(w, a - b) == (if a >= b { a - b } else { a - b + p2(w) }),
+{
+    if a >= b { lemma_trunc_id(w, a - b); }
+    else { lemma_trunc_unique(w, a - b, -1, a - b + p2(w)); }
+}
+
+pub proof fn lemma_trunc_neg_case(w: nat, a: nat)
+    requires a < p2(w)
+    ensures trunc(w, -(a as int)) == (if a == 0 { 0 } else { p2(w) - a }),
+{
+    if a == 0 { lemma_trunc_id(w, 0); }
+    else { lemma_trunc_unique(w, -(a as int), -1, p2(w) - a); }
+}
+
+/// two's complement reading: range, sign, and the two possible relations to u
+pub proof fn lemma_sval(w: nat, u: nat)
+    requires 1 <= w, u < p2(w)
+    ensures smin(w) <= sval(w, u) <= smax(w),
+            (sval(w, u) >= 0) == (u < p2((w - 1) as nat)),
+            u < p2((w - 1) as nat) ==> sval(w, u) == u,
+            u >= p2((w - 1) as nat) ==> sval(w, u) == u - p2(w),
+            trunc(w, sval(w, u)) == u,
+            p2(w) == 2 * p2((w - 1) as nat),
+            smax(w) - smin(w) + 1 == p2(w),
+{
+    lemma_p2(w);
+    lemma_p2((w - 1) as nat);
+    if u < p2((w - 1) as nat) { lemma_trunc_id(w, u as int); }
+    else { lemma_trunc_unique(w, u - p2(w), -1, u as int); }
+}
+
+/// every integer in the signed range is the reading of its truncation
+pub proof fn lemma_trunc_sval(w: nat, x: int)
+    requires 1 <= w, smin(w) <= x <= smax(w)
+    ensures sval(w, trunc(w, x)) == x, trunc(w, x) < p2(w),
+            x >= 0 ==> trunc(w, x) == x, x < 0 ==> trunc(w, x) == x + p2(w),
+{
+    lemma_p2(w);
+    lemma_p2((w - 1) as nat);
+    if x >= 0 { lemma_trunc_id(w, x); }
+    else { lemma_trunc_unique(w, x, -1, x + p2(w)); }
+}
+
+/// congruent values have the same truncation
+pub proof fn lemma_trunc_congruent(w: nat, x: int, y: int, k: int)
+    requires x == y + k * p2(w)
+    ensures trunc(w, x) == trunc(w, y),
+{
+    lemma_trunc_shift(w, y, k);
+}
+
+/// trunc distributes over +, -, * up to congruence
+pub proof fn lemma_trunc_add(w: nat, x: int, y: int)
+    ensures trunc(w, x + y) == trunc(w, (trunc(w, x) + trunc(w, y)) as int),
+{
+    lemma_trunc_range(w, x);
+    lemma_trunc_range(w, y);
+    let qx = x / (p2(w) as int);
+    let qy = y / (p2(w) as int);
+    assert(x + y == trunc(w, x) + trunc(w, y) + (qx + qy) * p2(w)) by (nonlinear_arith)
+        requires x == qx * p2(w) + trunc(w, x), y == qy * p2(w) + trunc(w, y);
+    lemma_trunc_congruent(w, x + y, (trunc(w, x) + trunc(w, y)) as int, qx + qy);
+}
+pub proof fn lemma_trunc_sub(w: nat, x: int, y: int)
+    ensures trunc(w, x - y) == trunc(w, trunc(w, x) - trunc(w, y)),
+{
+    lemma_trunc_range(w, x);
+    lemma_trunc_range(w, y);
+    let qx = x / (p2(w) as int);
+    let qy = y / (p2(w) as int);
+    assert(x - y == trunc(w, x) - trunc(w, y) + (qx - qy) * p2(w)) by (nonlinear_arith)
+        requires x == qx * p2(w) + trunc(w, x), y == qy * p2(w) + trunc(w, y);
+    lemma_trunc_congruent(w, x - y, trunc(w, x) - trunc(w, y), qx - qy);
+}
+pub proof fn lemma_trunc_mul(w: nat, x: int, y: int)
+    ensures trunc(w, x * y) == trunc(w, (trunc(w, x) * trunc(w, y)) as int),
+{
+    lemma_trunc_range(w, x);
+    lemma_trunc_range(w, y);
+    let qx = x / (p2(w) as int);
+    let qy = y / (p2(w) as int);
+    let tx = trunc(w, x) as int;
+    let ty = trunc(w, y) as int;
+    let p = p2(w) as int;
+    assert(x * y == tx * ty + (qx * qy * p + qx * ty + qy * tx) * p) by {
+        assert((qx * p + tx) * (qy * p + ty) == (qx * p) * (qy * p) + (qx * p) * ty + tx * (qy * p) + tx * ty) by (nonlinear_arith);
+        assert((qx * p) * (qy * p) == (qx * qy * p) * p) by (nonlinear_arith);
+        assert((qx * p) * ty == (qx * ty) * p) by (nonlinear_arith);
+        assert(tx * (qy * p) == (qy * tx) * p) by (nonlinear_arith);
+        assert((qx * qy * p) * p + (qx * ty) * p + (qy * tx) * p == (qx * qy * p + qx * ty + qy * tx) * p) by (nonlinear_arith);
+    }
+    lemma_trunc_congruent(w, x * y, tx * ty, qx * qy * p + qx * ty + qy * tx);
+}
+
+/// signed and unsigned readings are congruent
+pub proof fn lemma_sval_congruent(w: nat, u: nat)
+    requires 1 <= w, u < p2(w)
+    ensures trunc(w, sval(w, u)) == u, trunc(w, u as int) == u,
+{
+    lemma_sval(w, u);
+    lemma_trunc_id(w, u as int);
+}
 // ---- extracted type ex::BinOpType ----
 #[derive(Debug, PartialEq, Eq, Clone, Copy)]
 pub enum BinOpType {
@@ -977,6 +1163,244 @@ pub enum UnOpType {
     FloatRound,
     FloatNaN,
 }
+// ======== include spec/pcode.rs ========
+// ---------------------------------------------------------------------------
+// spec/pcode.rs -- the ORACLE for C01: Ghidra P-Code reference semantics of the
+// integer operations, written from the P-Code reference manual and the property
+// statement, over mathematical integers.  Values are Bitvector = (w, u).
+// `None` = the reference semantics give no integer value here (floating point,
+// division by zero).  Boolean results are 1-byte values 0/1.
+// ---------------------------------------------------------------------------
+
+pub open spec fn b2bv(b: bool) -> Bitvector { bv(8, if b { 1 } else { 0 }) }
+
+pub open spec fn is_float_binop(op: BinOpType) -> bool {
+    op is FloatEqual || op is FloatNotEqual || op is FloatLess || op is FloatLessEqual
+    || op is FloatAdd || op is FloatSub || op is FloatMult || op is FloatDiv
+}
+pub open spec fn is_div_binop(op: BinOpType) -> bool {
+    op is IntDiv || op is IntSDiv || op is IntRem || op is IntSRem
+}
+pub open spec fn is_shift_binop(op: BinOpType) -> bool {
+    op is IntLeft || op is IntRight || op is IntSRight
+}
+pub open spec fn is_bool_result_binop(op: BinOpType) -> bool {
+    op is IntEqual || op is IntNotEqual || op is IntLess || op is IntSLess || op is IntLessEqual || op is IntSLessEqual
+    || op is IntCarry || op is IntSCarry || op is IntSBorrow || op is BoolXOr || op is BoolOr || op is BoolAnd
+    || op is FloatEqual || op is FloatNotEqual || op is FloatLess || op is FloatLessEqual
+}
+
+/// size (in bits) of the result of a binary operation on operands of wa / wb bits
+pub open spec fn out_bits(op: BinOpType, wa: nat, wb: nat) -> nat {
+    if op is Piece { wa + wb } else if is_bool_result_binop(op) { 8 } else { wa }
+}
+
+pub open spec fn pcode_bin(op: BinOpType, a: Bitvector, b: Bitvector) -> Option<Bitvector> {
+    let w = a.w@;
+    let (ua, ub) = (a.u@, b.u@);
+    let (sa, sb) = (a.s(), b.s());
+    match op {
+        BinOpType::Piece => Some(bv(a.w@ + b.w@, ua * p2(b.w@) + ub)),
+        BinOpType::IntEqual => Some(b2bv(ua == ub)),
+        BinOpType::IntNotEqual => Some(b2bv(ua != ub)),
+        BinOpType::IntLess => Some(b2bv(ua < ub)),
+        BinOpType::IntSLess => Some(b2bv(sa < sb)),
+        BinOpType::IntLessEqual => Some(b2bv(ua <= ub)),
+        BinOpType::IntSLessEqual => Some(b2bv(sa <= sb)),
+        BinOpType::IntAdd => Some(bv(w, trunc(w, (ua + ub) as int))),
+        BinOpType::IntSub => Some(bv(w, trunc(w, ua - ub))),
+        // unsigned addition overflows
+        BinOpType::IntCarry => Some(b2bv(ua + ub >= p2(w))),
+        // signed addition overflows
+        BinOpType::IntSCarry => Some(b2bv(sa + sb > smax(w) || sa + sb < smin(w))),
+        // signed subtraction overflows
+        BinOpType::IntSBorrow => Some(b2bv(sa - sb > smax(w) || sa - sb < smin(w))),
+        BinOpType::IntXOr | BinOpType::BoolXOr => Some(bv(w, bits_xor(ua, ub))),
+        BinOpType::IntAnd | BinOpType::BoolAnd => Some(bv(w, bits_and(ua, ub))),
+        BinOpType::IntOr | BinOpType::BoolOr => Some(bv(w, bits_or(ua, ub))),
+        // shifts: the amount is the unsigned value of b (any size); amounts >= w shift everything out
+        BinOpType::IntLeft => Some(bv(w, if ub >= w { 0 } else { trunc(w, (ua * p2(ub)) as int) })),
+        BinOpType::IntRight => Some(bv(w, if ub >= w { 0 } else { ua / p2(ub) })),
+        BinOpType::IntSRight => Some(bv(w, if ub >= w { if sa < 0 { (p2(w) - 1) as nat } else { 0 } } else { trunc(w, sa / (p2(ub) as int)) })),
+        BinOpType::IntMult => Some(bv(w, trunc(w, (ua * ub) as int))),
+        BinOpType::IntDiv => if ub == 0 { None } else { Some(bv(w, ua / ub)) },
+        BinOpType::IntRem => if ub == 0 { None } else { Some(bv(w, ua % ub)) },
+        BinOpType::IntSDiv => if ub == 0 { None } else { Some(bv(w, trunc(w, tdiv(sa, sb)))) },
+        BinOpType::IntSRem => if ub == 0 { None } else { Some(bv(w, trunc(w, trem(sa, sb)))) },
+        _ => None,
+    }
+}
+
+/// what the analyzer is allowed to answer 'unknown' for (property statement)
+pub open spec fn unsupported_bin(op: BinOpType, a: Bitvector, b: Bitvector) -> bool {
+    is_float_binop(op)
+    || ((op is IntMult || is_div_binop(op)) && a.w@ > 64)
+    || (is_div_binop(op) && b.u@ == 0)
+}
+
+/// operand sizes P-Code requires
+pub open spec fn wellsized_bin(op: BinOpType, a: Bitvector, b: Bitvector) -> bool {
+    a.wf() && b.wf()
+    && (if op is Piece { a.w@ + b.w@ <= MAXW() }
+        else if is_shift_binop(op) { b.u@ < p2(64) }
+        else { a.w@ == b.w@ })
+}
+
+pub open spec fn is_float_unop(op: UnOpType) -> bool {
+    !(op is IntNegate || op is Int2Comp || op is BoolNegate)
+}
+pub open spec fn pcode_un(op: UnOpType, a: Bitvector) -> Option<Bitvector> {
+    match op {
+        UnOpType::IntNegate => Some(bv(a.w@, bits_not(a.w@, a.u@))),
+        UnOpType::Int2Comp => Some(bv(a.w@, trunc(a.w@, -(a.u@ as int)))),
+        UnOpType::BoolNegate => Some(b2bv(a.u@ == 0)),
+        _ => None,
+    }
+}
+pub open spec fn wellsized_un(op: UnOpType, a: Bitvector) -> bool {
+    a.wf() && (op is BoolNegate ==> a.w@ == 8 && a.u@ <= 1)
+}
+
+pub open spec fn is_float_cast(kind: CastOpType) -> bool {
+    kind is Int2Float || kind is Float2Float || kind is Trunc
+}
+pub open spec fn pcode_cast(kind: CastOpType, a: Bitvector, t: nat) -> Option<Bitvector> {
+    match kind {
+        CastOpType::IntZExt => Some(bv(t, a.u@)),
+        CastOpType::IntSExt => Some(bv(t, trunc(t, a.s()))),
+        CastOpType::PopCount => Some(bv(t, trunc(t, popcount(a.u@) as int))),
+        CastOpType::LzCount => Some(bv(t, trunc(t, a.w@ - bitlen(a.u@)))),
+        _ => None,
+    }
+}
+pub open spec fn wellsized_cast(kind: CastOpType, a: Bitvector, t: nat) -> bool {
+    a.wf() && 1 <= t <= MAXW() && ((kind is IntZExt || kind is IntSExt) ==> t >= a.w@)
+}
+
+/// SUBPIECE: drop `low` bits, keep `t` bits.
+pub open spec fn pcode_subpiece(a: Bitvector, low: nat, t: nat) -> Bitvector {
+    bv(t, (a.u@ / p2(low)) % p2(t))
+}
+// ======== include lemmas/pcode_bv.rs ========
+// ---------------------------------------------------------------------------
+// lemmas/pcode_bv.rs -- proved facts used by the C01 contracts (no assumptions).
+// ---------------------------------------------------------------------------
+
+pub proof fn lemma_bits_bound(w: nat, a: nat, b: nat)
+    requires a < p2(w), b < p2(w)
+    ensures bits_and(a, b) < p2(w), bits_or(a, b) < p2(w), bits_xor(a, b) < p2(w),
+    decreases w
+{
+    lemma_p2(w);
+    if w == 0 {
+        lemma_p2_consts();
+        reveal_with_fuel(bits_and, 2); reveal_with_fuel(bits_or, 2); reveal_with_fuel(bits_xor, 2);
+    } else {
+        lemma_bits_bound((w - 1) as nat, a / 2, b / 2);
+    }
+}
+
+/// x = a * 2^k with b < 2^k: OR is addition (the bits do not overlap)
+pub proof fn lemma_or_disjoint(a: nat, k: nat, b: nat)
+    requires b < p2(k)
+    ensures bits_or(a * p2(k), b) == a * p2(k) + b,
+    decreases k
+{
+    lemma_p2(k);
+    if k == 0 {
+        lemma_p2_consts();
+        lemma_or_zero(a);
+        assert(a * p2(0) == a) by (nonlinear_arith) requires p2(0) == 1;
+    } else {
+        let h = p2((k - 1) as nat);
+        assert(a * p2(k) == 2 * (a * h)) by (nonlinear_arith) requires p2(k) == 2 * h;
+        lemma_or_disjoint(a, (k - 1) as nat, b / 2);
+        if a * p2(k) == 0 && b == 0 {
+        } else {
+            assert((a * p2(k)) % 2 == 0);
+            assert((a * p2(k)) / 2 == a * h);
+        }
+    }
+}
+pub proof fn lemma_or_zero(a: nat)
+    ensures bits_or(a, 0) == a
+    decreases a
+{
+    if a != 0 { lemma_or_zero(a / 2); }
+}
+
+pub open spec fn binop_facts(a: Bitvector, b: Bitvector) -> bool {
+    let w = a.w@;
+    &&& p2(w) == 2 * p2((w - 1) as nat) && p2(w) > 0
+    &&& smin(w) <= a.s() <= smax(w)
+    &&& (a.s() >= 0) == (a.u@ < p2((w - 1) as nat))
+    &&& (a.u@ < p2((w - 1) as nat) ==> a.s() == a.u@) && (a.u@ >= p2((w - 1) as nat) ==> a.s() == a.u@ - p2(w))
+}
+
+/// everything `bin_op` needs to know about two equally wide operands
+pub proof fn lemma_binop_facts(a: Bitvector, b: Bitvector)
+    requires a.wf(), b.wf(), a.w@ == b.w@
+    ensures binop_facts(a, b), binop_facts(b, a),
+            binop_facts(bv_add(a, b), a), binop_facts(bv_sub(a, b), a),
+            bv_add(a, b).wf(), bv_sub(a, b).wf(), bv_and(a, b).wf(), bv_or(a, b).wf(), bv_xor(a, b).wf(),
+            bv_add(a, b).u@ == (if a.u@ + b.u@ < p2(a.w@) { (a.u@ + b.u@) as int } else { a.u@ + b.u@ - p2(a.w@) }),
+            bv_sub(a, b).u@ == (if a.u@ >= b.u@ { a.u@ - b.u@ } else { a.u@ - b.u@ + p2(a.w@) }),
+{
+    let w = a.w@;
+    lemma_sval(w, a.u@); lemma_sval(w, b.u@);
+    lemma_trunc_add_case(w, a.u@, b.u@); lemma_trunc_sub_case(w, a.u@, b.u@);
+    lemma_sval(w, bv_add(a, b).u@); lemma_sval(w, bv_sub(a, b).u@);
+    lemma_bits_bound(w, a.u@, b.u@);
+}
+
+pub proof fn lemma_piece(a: Bitvector, b: Bitvector)
+    requires a.wf(), b.wf(), a.w@ + b.w@ <= MAXW()
+    ensures a.u@ * p2(b.w@) + b.u@ < p2(a.w@ + b.w@),
+            a.u@ * p2(b.w@) < p2(a.w@ + b.w@),
+            trunc(a.w@ + b.w@, (a.u@ * p2(b.w@)) as int) == a.u@ * p2(b.w@),
+            bits_or(a.u@ * p2(b.w@), b.u@) == a.u@ * p2(b.w@) + b.u@,
+            a.u@ < p2(a.w@ + b.w@), b.u@ < p2(a.w@ + b.w@),
+{
+    let (wa, wb) = (a.w@, b.w@);
+    lemma_p2(wa); lemma_p2(wb);
+    vstd::arithmetic::power2::lemma_pow2_adds(wa, wb);
+    assert(a.u@ * p2(wb) + b.u@ < p2(wa) * p2(wb)) by (nonlinear_arith)
+        requires a.u@ < p2(wa), b.u@ < p2(wb);
+    lemma_trunc_id(wa + wb, (a.u@ * p2(wb)) as int);
+    lemma_or_disjoint(a.u@, wb, b.u@);
+    lemma_p2_mono(wa, wa + wb); lemma_p2_mono(wb, wa + wb);
+}
+
+pub proof fn lemma_minus_one(w: nat)
+    requires 1 <= w
+    ensures trunc(w, 0 - 1) == p2(w) - 1, p2(w) >= 2,
+{
+    lemma_p2(w); lemma_p2((w - 1) as nat);
+    lemma_trunc_unique(w, -1, -1, p2(w) - 1);
+}
+
+/// values far below 2^64 survive truncation to any width >= 64 and the u64 round trip of resize
+pub proof fn lemma_small_trunc(t: nat, x: nat)
+    requires x <= MAXW()
+    ensures t >= 64 ==> trunc(t, x as int) == x && x < p2(t),
+            x < p2(64),
+{
+    lemma_p2_consts();
+    if t >= 64 { lemma_p2_mono(64, t); lemma_trunc_id(t, x as int); }
+}
+
+pub proof fn lemma_count_bounds(w: nat, u: nat)
+    requires u < p2(w)
+    ensures popcount(u) <= w, bitlen(u) <= w,
+    decreases w
+{
+    lemma_p2(w);
+    if w == 0 {
+        lemma_p2_consts();
+    } else if u != 0 {
+        lemma_count_bounds((w - 1) as nat, u / 2);
+    }
+}
 // ---- extracted fn ir::impl ByteSize::new ----
 impl ByteSize {
     pub fn new( value : u64 ) -> (r: ByteSize)
@@ -1023,11 +1447,644 @@ impl Bitvector {
     fn into_resize_unsigned( self , size : ByteSize ) -> (r: Bitvector)
     requires self.wf(), 1 <= size.0 <= MAXBYTES(),
     ensures r.wf(),
+        r == bv((size.0 * 8) as nat, if size.0 * 8 > self.w@ { self.u@ } else { self.u@ % p2((size.0 * 8) as nat) }),
     {
         if self.width() < size.into() {
             self.into_zero_extend(size).unwrap()
         } else {
             self.into_truncate(size).unwrap()
+        }
+    }
+}
+// ---- extracted fn bv::impl BitvectorExtended for Bitvector::into_resize_signed ----
+impl Bitvector {
+    fn into_resize_signed( self , size : ByteSize ) -> (r: Bitvector)
+    requires self.wf(), 1 <= size.0 <= MAXBYTES(),
+    ensures r.wf(),
+        r == bv((size.0 * 8) as nat, if size.0 * 8 > self.w@ { trunc((size.0 * 8) as nat, self.s()) } else { self.u@ % p2((size.0 * 8) as nat) }),
+    {
+        if self.width() < size.into() {
+            self.into_sign_extend(size).unwrap()
+        } else {
+            self.into_truncate(size).unwrap()
+        }
+    }
+}
+// ---- extracted fn bv::impl BitvectorExtended for Bitvector::bytesize ----
+impl Bitvector {
+    fn bytesize( & self ) -> (r: ByteSize)
+    requires self.wf(),
+    ensures r.0 == (self.w@ + 7) / 8,
+    {
+        self.width().into()
+    }
+}
+// ---- extracted fn bv::impl BitvectorExtended for Bitvector::cast ----
+impl Bitvector {
+    fn cast( & self , kind : CastOpType , width : ByteSize ) -> (r: Result < Bitvector , Error >)
+    requires 1 <= width.0 <= MAXBYTES(), wellsized_cast(kind, *self, (width.0 * 8) as nat),
+    ensures r is Ok ==> pcode_cast(kind, *self, (width.0 * 8) as nat) == Some(r->Ok_0) && r->Ok_0.wf(),
+            r is Err <==> is_float_cast(kind),
+    {
+        proof {
+            lemma_count_bounds(self.w@, self.u@);
+            lemma_small_trunc((width.0 * 8) as nat, popcount(self.u@));
+            lemma_small_trunc((width.0 * 8) as nat, (self.w@ - bitlen(self.u@)) as nat);
+        }
+
+        match kind {
+            CastOpType::IntZExt => Ok(self.clone().into_zero_extend(width).unwrap()),
+            CastOpType::IntSExt => Ok(self.clone().into_sign_extend(width).unwrap()),
+            CastOpType::Int2Float | CastOpType::Float2Float | CastOpType::Trunc => {
+                Err(verif_error())
+            }
+            CastOpType::PopCount => {
+                Ok(Bitvector::from_u64(self.count_ones() as u64).into_resize_unsigned(width))
+            }
+            CastOpType::LzCount => {
+                Ok(Bitvector::from_u64(self.leading_zeros() as u64).into_resize_unsigned(width))
+            }
+        }
+    }
+}
+// ---- extracted fn bv::impl BitvectorExtended for Bitvector::subpiece ----
+impl Bitvector {
+    fn subpiece( & self , low_byte : ByteSize , size : ByteSize ) -> (r: Bitvector)
+    requires self.wf(), low_byte.0 * 8 < self.w@, 1 <= size.0, size.0 * 8 <= self.w@,
+    ensures r == pcode_subpiece(*self, (low_byte.0 * 8) as nat, (size.0 * 8) as nat), r.wf(),
+    {
+        self.clone()
+            .into_checked_lshr(low_byte.as_bit_length())
+            .unwrap()
+            .into_truncate(size.as_bit_length())
+            .unwrap()
+    }
+}
+// ---- extracted fn bv::impl BitvectorExtended for Bitvector::un_op ----
+impl Bitvector {
+    fn un_op( & self , op : UnOpType ) -> (r: Result < Bitvector , Error >)
+    requires wellsized_un(op, *self),
+    ensures r is Ok ==> pcode_un(op, *self) == Some(r->Ok_0) && r->Ok_0.wf(),
+            r is Err <==> is_float_unop(op),
+    {
+        proof { lemma_p2_consts(); lemma_trunc_range(self.w@, -(self.u@ as int)); }
+
+        use UnOpType::*;
+        match op {
+            Int2Comp => Ok(-self.clone()),
+            IntNegate => Ok(self.clone().into_bitnot()),
+            BoolNegate => {
+                if self.is_zero() {
+                    Ok(Bitvector::from_u8(1))
+                } else {
+                    verif_assume_or_diverge((self) == (&Bitvector::from_u8(1))); // Any other value would indicate a bug.
+                    Ok(Bitvector::from_u8(0))
+                }
+            }
+            FloatNegate | FloatAbs | FloatSqrt | FloatCeil | FloatFloor | FloatRound | FloatNaN => {
+                Err(verif_error())
+            }
+        }
+    }
+}
+// ---- extracted fn bv::impl BitvectorExtended for Bitvector::bin_op ----
+impl Bitvector {
+    fn bin_op( & self , op : BinOpType , rhs : & Bitvector ) -> (r: Result < Bitvector , Error >)
+    requires wellsized_bin(op, *self, *rhs),
+    ensures r is Ok ==> pcode_bin(op, *self, *rhs) == Some(r->Ok_0) && r->Ok_0.wf(),
+            r is Err <==> unsupported_bin(op, *self, *rhs),
+    {
+        proof {
+            lemma_p2_consts();
+            if op is Piece { lemma_piece(*self, *rhs); }
+            else if is_shift_binop(op) { lemma_sval(self.w@, self.u@); lemma_minus_one(self.w@); }
+            else { lemma_binop_facts(*self, *rhs); }
+        }
+
+        use BinOpType::*;
+        match op {
+            Piece => {
+                let new_bitwidth = self.width().to_usize() + rhs.width().to_usize();
+                let upper_bits = self
+                    .clone()
+                    .into_zero_extend(new_bitwidth)
+                    .unwrap()
+                    .into_checked_shl(rhs.width().to_usize())
+                    .unwrap();
+                let lower_bits = rhs.clone().into_zero_extend(new_bitwidth).unwrap();
+                Ok(upper_bits | *&lower_bits)
+            }
+            IntAdd => Ok(self + rhs),
+            IntSub => Ok(self - rhs),
+            IntCarry => {
+                let result = self + rhs;
+                if result.checked_ult(self).unwrap() || result.checked_ult(rhs).unwrap() {
+                    Ok(Bitvector::from_u8(1))
+                } else {
+                    Ok(Bitvector::from_u8(0))
+                }
+            }
+            IntSCarry => {
+                let result = Int::from(self + rhs);
+                let signed_self = Int::from(self.clone());
+                let signed_rhs = Int::from(rhs.clone());
+                if (result.is_negative() && signed_self.is_positive() && signed_rhs.is_positive())
+                    || (!result.is_negative()
+                        && signed_self.is_negative()
+                        && signed_rhs.is_negative())
+                {
+                    Ok(Bitvector::from_u8(1))
+                } else {
+                    Ok(Bitvector::from_u8(0))
+                }
+            }
+            IntSBorrow => {
+                let result = Int::from(self - rhs);
+                let signed_self = Int::from(self.clone());
+                let signed_rhs = Int::from(rhs.clone());
+                if (result.is_negative() && !signed_self.is_positive() && signed_rhs.is_negative())
+                    || (result.is_positive()
+                        && signed_self.is_negative()
+                        && signed_rhs.is_positive())
+                {
+                    Ok(Bitvector::from_u8(1))
+                } else {
+                    Ok(Bitvector::from_u8(0))
+                }
+            }
+            IntMult => {
+                // FIXME: Multiplication for bitvectors larger than 8 bytes is not yet implemented in the `apint` crate (version 0.2).
+                if self.width().to_usize() > 64 {
+                    Err(verif_error())
+                } else {
+                    Ok(self * rhs)
+                }
+            }
+            IntDiv => {
+                // FIXME: Division for bitvectors larger than 8 bytes is not yet implemented in the `apint` crate (version 0.2).
+                if self.width().to_usize() > 64 {
+                    Err(verif_error())
+                } else {
+                    Ok(self.clone().into_checked_udiv(rhs)?)
+                }
+            }
+            IntSDiv => {
+                // FIXME: Division for bitvectors larger than 8 bytes is not yet implemented in the `apint` crate (version 0.2).
+                if self.width().to_usize() > 64 {
+                    Err(verif_error())
+                } else {
+                    Ok(self.clone().into_checked_sdiv(rhs)?)
+                }
+            }
+            IntRem => {
+                // FIXME: Division for bitvectors larger than 8 bytes is not yet implemented in the `apint` crate (version 0.2).
+                if self.width().to_usize() > 64 {
+                    Err(verif_error())
+                } else {
+                    Ok(self.clone().into_checked_urem(rhs)?)
+                }
+            }
+            IntSRem => {
+                // FIXME: Division for bitvectors larger than 8 bytes is not yet implemented in the `apint` crate (version 0.2).
+                if self.width().to_usize() > 64 {
+                    Err(verif_error())
+                } else {
+                    Ok(self.clone().into_checked_srem(rhs)?)
+                }
+            }
+            IntLeft => {
+                let shift_amount = rhs.try_to_u64().unwrap() as usize;
+                if shift_amount < self.width().to_usize() {
+                    Ok(self.clone().into_checked_shl(shift_amount).unwrap())
+                } else {
+                    Ok(Bitvector::zero(self.width()))
+                }
+            }
+            IntRight => {
+                let shift_amount = rhs.try_to_u64().unwrap() as usize;
+                if shift_amount < self.width().to_usize() {
+                    Ok(self.clone().into_checked_lshr(shift_amount).unwrap())
+                } else {
+                    Ok(Bitvector::zero(self.width()))
+                }
+            }
+            IntSRight => {
+                let shift_amount = rhs.try_to_u64().unwrap() as usize;
+                if shift_amount < self.width().to_usize() {
+                    Ok(self.clone().into_checked_ashr(shift_amount).unwrap())
+                } else {
+                    let signed_bitvec = Int::from(self.clone());
+                    if signed_bitvec.is_negative() {
+                        let minus_one =
+                            Bitvector::zero(self.width()) - *&Bitvector::one(self.width());
+                        Ok(minus_one)
+                    } else {
+                        Ok(Bitvector::zero(self.width()))
+                    }
+                }
+            }
+            IntAnd | BoolAnd => Ok(self & rhs),
+            IntOr | BoolOr => Ok(self | rhs),
+            IntXOr | BoolXOr => Ok(self ^ rhs),
+            IntEqual => {
+                verif_assume_or_diverge((self.width()) == (rhs.width()));
+                Ok(Bitvector::from((self == rhs) as u8))
+            }
+            IntNotEqual => {
+                verif_assume_or_diverge((self.width()) == (rhs.width()));
+                Ok(Bitvector::from((self != rhs) as u8))
+            }
+            IntLess => Ok(Bitvector::from(self.checked_ult(rhs).unwrap() as u8)),
+            IntLessEqual => Ok(Bitvector::from(self.checked_ule(rhs).unwrap() as u8)),
+            IntSLess => Ok(Bitvector::from(self.checked_slt(rhs).unwrap() as u8)),
+            IntSLessEqual => Ok(Bitvector::from(self.checked_sle(rhs).unwrap() as u8)),
+            FloatEqual | FloatNotEqual | FloatLess | FloatLessEqual => {
+                // TODO: Implement floating point comparison operators!
+                Err(verif_error())
+            }
+            FloatAdd | FloatSub | FloatMult | FloatDiv => {
+                // TODO: Implement floating point arithmetic operators!
+                Err(verif_error())
+            }
+        }
+    }
+}
+// ---- extracted fn bv::impl BitvectorExtended for Bitvector::signed_add_overflow_checked ----
+impl Bitvector {
+    fn signed_add_overflow_checked( & self , rhs : & Bitvector ) -> (r: Option < Bitvector >)
+    requires self.wf(), rhs.wf(), self.w@ == rhs.w@,
+    ensures r is Some ==> r->Some_0.wf() && r->Some_0.w@ == self.w@ && r->Some_0.s() == self.s() + rhs.s(),
+            r is None ==> (self.s() + rhs.s() > smax(self.w@) || self.s() + rhs.s() < smin(self.w@)),
+    {
+        proof {
+            lemma_sval(self.w@, self.u@); lemma_sval(rhs.w@, rhs.u@);
+            lemma_trunc_add_case(self.w@, self.u@, rhs.u@);
+            lemma_sval(self.w@, bv_add(*self, *rhs).u@);
+        }
+
+        let result = self.clone().into_checked_add(rhs).unwrap();
+        match (rhs.sign_bit().to_bool(), self.checked_sle(&result).unwrap()) {
+            (true, true) | (false, false) => None,
+            _ => Some(result),
+        }
+    }
+}
+// ---- extracted fn bv::impl BitvectorExtended for Bitvector::signed_sub_overflow_checked ----
+impl Bitvector {
+    fn signed_sub_overflow_checked( & self , rhs : & Bitvector ) -> (r: Option < Bitvector >)
+    requires self.wf(), rhs.wf(), self.w@ == rhs.w@,
+    ensures r is Some ==> r->Some_0.wf() && r->Some_0.w@ == self.w@ && r->Some_0.s() == self.s() - rhs.s(),
+            r is None ==> (self.s() - rhs.s() > smax(self.w@) || self.s() - rhs.s() < smin(self.w@)),
+    {
+        proof {
+            lemma_sval(self.w@, self.u@); lemma_sval(rhs.w@, rhs.u@);
+            lemma_trunc_sub_case(self.w@, self.u@, rhs.u@);
+            lemma_sval(self.w@, bv_sub(*self, *rhs).u@);
+        }
+
+        let result = self.clone().into_checked_sub(rhs).unwrap();
+        match (rhs.sign_bit().to_bool(), self.checked_sge(&result).unwrap()) {
+            (true, true) | (false, false) => None,
+            _ => Some(result),
+        }
+    }
+}
+// ---- extracted fn bv::impl BitvectorExtended for Bitvector::signed_mult_with_overflow_flag ----
+impl Bitvector {
+    fn signed_mult_with_overflow_flag( & self , rhs : & Bitvector ) -> (r: Result < ( Bitvector , bool ) , Error >)
+    requires self.wf(), rhs.wf(), self.w@ == rhs.w@,
+    ensures r is Err <==> (self.u@ != 0 && self.w@ > 64),
+            r is Ok ==> ({
+                let (v, flag) = r->Ok_0;
+                &&& v.wf() && v.w@ == self.w@ && v.u@ == trunc(self.w@, (self.u@ * rhs.u@) as int)
+                &&& flag <==> (self.s() * rhs.s() > smax(self.w@) || self.s() * rhs.s() < smin(self.w@))
+                &&& !flag ==> v.s() == self.s() * rhs.s()
+            }),
+    {
+        if self.is_zero() {
+            Ok((Bitvector::zero(self.width()), false))
+        } else if self.width().to_usize() > 64 {
+            // FIXME: Multiplication for bitvectors larger than 8 bytes is not yet implemented in the `apint` crate (version 0.2).
+            Err(verif_error())
+        } else {
+            let result = self.clone().into_checked_mul(rhs).unwrap();
+            if result.clone().into_checked_sdiv(self).unwrap() != *rhs {
+                Ok((result, true))
+            } else {
+                Ok((result, false))
+            }
+        }
+    }
+}
+// ---- extracted type va::Variable ----
+pub struct Variable {
+    
+    pub name: String,
+    
+    pub size: ByteSize,
+    
+    pub is_temp: bool,
+}
+// ---- extracted type ex::Expression ----
+pub enum Expression {
+    
+    Var(Variable),
+    
+    Const(Bitvector),
+    
+    
+    
+    BinOp {
+        
+        op: BinOpType,
+        
+        lhs: Box<Expression>,
+        
+        rhs: Box<Expression>,
+    },
+    
+    UnOp {
+        
+        op: UnOpType,
+        
+        arg: Box<Expression>,
+    },
+    
+    Cast {
+        
+        op: CastOpType,
+        
+        size: ByteSize,
+        
+        arg: Box<Expression>,
+    },
+    
+    
+    
+    Unknown {
+        
+        description: String,
+        
+        size: ByteSize,
+    },
+    
+    Subpiece {
+        
+        low_byte: ByteSize,
+        
+        size: ByteSize,
+        
+        arg: Box<Expression>,
+    },
+}
+pub open spec fn expr_ok(e: Expression) -> bool
+    decreases e
+{
+    match e {
+        Expression::Var(v) => true,
+        Expression::Const(b) => b.wf(),
+        Expression::BinOp { op, lhs, rhs } => expr_ok(*lhs) && expr_ok(*rhs),
+        Expression::UnOp { op, arg } => expr_ok(*arg),
+        Expression::Cast { op, size, arg } => expr_ok(*arg),
+        Expression::Unknown { description, size } => true,
+        Expression::Subpiece { low_byte, size, arg } => expr_ok(*arg),
+    }
+}
+/// result size in bytes of an expression, folded over its structure (P-Code sizing rules)
+pub open spec fn expr_bytes(e: Expression) -> nat
+    decreases e
+{
+    match e {
+        Expression::Var(v) => v.size.0 as nat,
+        Expression::Const(b) => (b.w@ + 7) / 8,
+        Expression::BinOp { op, lhs, rhs } =>
+            if op is Piece { expr_bytes(*lhs) + expr_bytes(*rhs) }
+            else if is_bool_result_binop(op) { 1 }
+            else { expr_bytes(*lhs) },
+        Expression::UnOp { op, arg } => if op is FloatNaN { 1 } else { expr_bytes(*arg) },
+        Expression::Cast { op, size, arg } => size.0 as nat,
+        Expression::Unknown { description, size } => size.0 as nat,
+        Expression::Subpiece { low_byte, size, arg } => size.0 as nat,
+    }
+}
+// ---- extracted fn ex::impl Expression::bytesize ----
+impl Expression {
+    pub fn bytesize( & self ) -> (r: ByteSize)
+    requires expr_ok(*self), expr_bytes(*self) <= u64::MAX,
+    ensures r.0 as nat == expr_bytes(*self),
+    decreases *self,
+    {
+        use BinOpType::*;
+        use Expression::*;
+        match self {
+            Var(var) => var.size,
+            Const(bitvec) => bitvec.width().into(),
+            BinOp { op, lhs, rhs } => match op {
+                Piece => lhs.bytesize() + rhs.bytesize(),
+                IntEqual | IntNotEqual | IntLess | IntSLess | IntLessEqual | IntSLessEqual
+                | IntCarry | IntSCarry | IntSBorrow | BoolXOr | BoolOr | BoolAnd | FloatEqual
+                | FloatNotEqual | FloatLess | FloatLessEqual => ByteSize::new(1),
+                IntAdd | IntSub | IntAnd | IntOr | IntXOr | IntLeft | IntRight | IntSRight
+                | IntMult | IntDiv | IntRem | IntSDiv | IntSRem | FloatAdd | FloatSub
+                | FloatMult | FloatDiv => lhs.bytesize(),
+            },
+            UnOp { op, arg } => match op {
+                UnOpType::FloatNaN => ByteSize::new(1),
+                _ => arg.bytesize(),
+            },
+            Cast { size, .. } | Unknown { size, .. } | Subpiece { size, .. } => *size,
+        }
+    }
+}
+// ---- extracted type bd::BitvectorDomain ----
+pub enum BitvectorDomain {
+    
+    Top(ByteSize),
+    
+    Value(Bitvector),
+}
+// derive(PartialEq, Eq, Clone) of the real type, restated (R1): structural equality / copy.
+impl PartialEq for BitvectorDomain {
+    #[verifier::external_body]
+    fn eq(&self, other: &BitvectorDomain) -> (r: bool) { unimplemented!() }
+}
+impl PartialEqSpecImpl for BitvectorDomain {
+    open spec fn obeys_eq_spec() -> bool { true }
+    open spec fn eq_spec(&self, other: &BitvectorDomain) -> bool { *self == *other }
+}
+impl Eq for BitvectorDomain {}
+impl Clone for BitvectorDomain {
+    #[verifier::external_body]
+    fn clone(&self) -> (r: BitvectorDomain) ensures r == *self { unimplemented!() }
+}
+impl BitvectorDomain {
+    pub open spec fn wf(&self) -> bool {
+        match *self {
+            BitvectorDomain::Top(s) => 1 <= s.0 <= MAXBYTES(),
+            BitvectorDomain::Value(b) => b.wf(),
+        }
+    }
+    pub open spec fn bytes(&self) -> nat {
+        match *self {
+            BitvectorDomain::Top(s) => s.0 as nat,
+            BitvectorDomain::Value(b) => (b.w@ + 7) / 8,
+        }
+    }
+}
+// ---- extracted fn bd::impl SizedDomain for BitvectorDomain::bytesize ----
+impl BitvectorDomain {
+    fn bytesize( & self ) -> (r: ByteSize)
+    requires self.wf(),
+    ensures r.0 as nat == self.bytes(),
+    {
+        use BitvectorDomain::*;
+        match self {
+            Top(bytesize) => *bytesize,
+            Value(bitvec) => bitvec.width().into(),
+        }
+    }
+}
+// ---- extracted fn bd::impl SizedDomain for BitvectorDomain::new_top ----
+impl BitvectorDomain {
+    fn new_top( bytesize : ByteSize ) -> (r: BitvectorDomain)
+    ensures r == BitvectorDomain::Top(bytesize),
+    {
+        BitvectorDomain::Top(bytesize)
+    }
+}
+// ---- extracted fn bd::impl HasTop for BitvectorDomain::top ----
+impl BitvectorDomain {
+    fn top( & self ) -> (r: BitvectorDomain)
+    requires self.wf(),
+    ensures r is Top, r->Top_0.0 as nat == self.bytes(),
+    {
+        BitvectorDomain::Top(self.bytesize())
+    }
+}
+// ---- extracted fn bd::impl AbstractDomain for BitvectorDomain::is_top ----
+impl BitvectorDomain {
+    fn is_top( & self ) -> (r: bool)
+    ensures r == (*self is Top),
+    {
+        matches!(self, Self::Top(_))
+    }
+}
+// ---- extracted fn bd::impl AbstractDomain for BitvectorDomain::merge ----
+impl BitvectorDomain {
+    fn merge( & self , other : & BitvectorDomain ) -> (r: BitvectorDomain)
+    requires self.wf(), other.wf(),
+    ensures *self == *other ==> r == *self,
+            *self != *other ==> r is Top && r->Top_0.0 as nat == self.bytes(),
+    {
+        if self == other {
+            self.clone()
+        } else {
+            self.top()
+        }
+    }
+}
+// ---- extracted fn ad::trait RegisterDomain::bin_op_bytesize ----
+impl BitvectorDomain {
+    fn bin_op_bytesize( & self , op : BinOpType , rhs : & BitvectorDomain ) -> (r: ByteSize)
+    requires self.wf(), rhs.wf(), self.bytes() + rhs.bytes() <= MAXBYTES(),
+    ensures r.0 as nat == (if op is Piece { self.bytes() + rhs.bytes() } else if is_bool_result_binop(op) { 1 } else { self.bytes() }),
+    {
+        use BinOpType::*;
+        match op {
+            Piece => self.bytesize() + rhs.bytesize(),
+            IntAdd | IntSub | IntMult | IntDiv | IntSDiv | IntRem | IntSRem | IntLeft
+            | IntRight | IntSRight | IntAnd | IntOr | IntXOr | FloatAdd | FloatSub | FloatMult
+            | FloatDiv => self.bytesize(),
+            IntEqual | IntNotEqual | IntLess | IntLessEqual | IntSLess | IntSLessEqual
+            | IntCarry | IntSCarry | IntSBorrow | BoolAnd | BoolOr | BoolXOr | FloatEqual
+            | FloatNotEqual | FloatLess | FloatLessEqual => ByteSize::new(1),
+        }
+    }
+}
+// ---- extracted fn bd::impl RegisterDomain for BitvectorDomain::bin_op ----
+impl BitvectorDomain {
+    fn bin_op( & self , op : BinOpType , rhs : & BitvectorDomain ) -> (r: BitvectorDomain)
+    requires self.wf(), rhs.wf(), self.bytes() + rhs.bytes() <= MAXBYTES(),
+        (*self is Value && *rhs is Value) ==> wellsized_bin(op, self->Value_0, rhs->Value_0),
+    ensures
+        // both operands known: a value exactly when the concrete evaluation has one -- and then that value
+        (*self is Value && *rhs is Value && !unsupported_bin(op, self->Value_0, rhs->Value_0))
+            ==> r is Value && Some(r->Value_0) == pcode_bin(op, self->Value_0, rhs->Value_0),
+        (*self is Value && *rhs is Value && unsupported_bin(op, self->Value_0, rhs->Value_0)) ==> r is Top,
+        (*self is Top || *rhs is Top) ==> r is Top,
+        r is Top ==> r->Top_0.0 as nat == (if op is Piece { self.bytes() + rhs.bytes() } else if is_bool_result_binop(op) { 1 } else { self.bytes() }),
+    {
+        use BinOpType::*;
+        match op {
+            Piece | IntLeft | IntRight | IntSRight => (),
+            _ => verif_assume_or_diverge((self.bytesize()) == (rhs.bytesize())),
+        }
+        match (self, rhs) {
+            (BitvectorDomain::Value(lhs_bitvec), BitvectorDomain::Value(rhs_bitvec)) => {
+                match lhs_bitvec.bin_op(op, rhs_bitvec) {
+                    Ok(val) => BitvectorDomain::Value(val),
+                    Err(_) => BitvectorDomain::new_top(self.bin_op_bytesize(op, rhs)),
+                }
+            }
+            _ => BitvectorDomain::new_top(self.bin_op_bytesize(op, rhs)),
+        }
+    }
+}
+// ---- extracted fn bd::impl RegisterDomain for BitvectorDomain::un_op ----
+impl BitvectorDomain {
+    fn un_op( & self , op : UnOpType ) -> (r: BitvectorDomain)
+    requires self.wf(), *self is Value ==> wellsized_un(op, self->Value_0),
+    ensures
+        (*self is Value && !is_float_unop(op)) ==> r is Value && Some(r->Value_0) == pcode_un(op, self->Value_0),
+        (*self is Top || is_float_unop(op)) ==> r is Top && r->Top_0.0 as nat == (if op is BoolNegate || op is FloatNaN { 1 } else { self.bytes() }),
+    {
+        use UnOpType::*;
+        if let BitvectorDomain::Value(bitvec) = self {
+            match bitvec.un_op(op) {
+                Ok(val) => BitvectorDomain::Value(val),
+                Err(_) => match op {
+                    BoolNegate | FloatNaN => BitvectorDomain::new_top(ByteSize::new(1)),
+                    _ => BitvectorDomain::new_top(self.bytesize()),
+                },
+            }
+        } else {
+            match op {
+                BoolNegate | FloatNaN => BitvectorDomain::new_top(ByteSize::new(1)),
+                _ => BitvectorDomain::new_top(self.bytesize()),
+            }
+        }
+    }
+}
+// ---- extracted fn bd::impl RegisterDomain for BitvectorDomain::subpiece ----
+impl BitvectorDomain {
+    fn subpiece( & self , low_byte : ByteSize , size : ByteSize ) -> (r: BitvectorDomain)
+    requires self.wf(), *self is Value ==> (low_byte.0 * 8 < self->Value_0.w@ && 1 <= size.0 && size.0 * 8 <= self->Value_0.w@),
+    ensures
+        *self is Value ==> r is Value && r->Value_0 == pcode_subpiece(self->Value_0, (low_byte.0 * 8) as nat, (size.0 * 8) as nat),
+        *self is Top ==> r == BitvectorDomain::Top(size),
+    {
+        if let BitvectorDomain::Value(bitvec) = self {
+            BitvectorDomain::Value(bitvec.subpiece(low_byte, size))
+        } else {
+            BitvectorDomain::new_top(size)
+        }
+    }
+}
+// ---- extracted fn bd::impl RegisterDomain for BitvectorDomain::cast ----
+impl BitvectorDomain {
+    fn cast( & self , kind : CastOpType , width : ByteSize ) -> (r: BitvectorDomain)
+    requires self.wf(), 1 <= width.0 <= MAXBYTES(), *self is Value ==> wellsized_cast(kind, self->Value_0, (width.0 * 8) as nat),
+    ensures
+        (*self is Value && !is_float_cast(kind)) ==> r is Value && Some(r->Value_0) == pcode_cast(kind, self->Value_0, (width.0 * 8) as nat),
+        (*self is Top || is_float_cast(kind)) ==> r == BitvectorDomain::Top(width),
+    {
+        if let BitvectorDomain::Value(bitvec) = self {
+            match bitvec.cast(kind, width) {
+                Ok(val) => BitvectorDomain::Value(val),
+                Err(_) => BitvectorDomain::new_top(width),
+            }
+        } else {
+            BitvectorDomain::new_top(width)
         }
     }
 }
